@@ -332,6 +332,95 @@ func runC19(c *Ctx) {
 		}
 		c.Check(bad == "", "C19.R6", "retrieval path: no unchecked assertion, panic or Must* call", rr.Pos(), fmt.Sprintf("%d library functions reachable from the retrieval helpers", n), bad)
 	}
+
+	// ---------- R9: a result is not used while its error is ignored ----------
+	// When a list has become unreadable, the calls that touch it fail: (value, error) calls return a
+	// nil / zero value with the error.  Dereferencing that value without having looked at the error
+	// is the crash the property excludes.
+	{
+		c.Rule("C19.R9", "NIL", "on the retrieval path no pointer or interface result is used while the error returned with it is discarded", 0)
+		bad := ""
+		n := 0
+		for fn := range c.P.Reachable(rnr, rhr, srl, frl) {
+			if !c.P.IsLibFunc(fn) || fn.Blocks == nil {
+				continue
+			}
+			eachInstr(fn, func(_ *ssa.BasicBlock, in ssa.Instruction) {
+				cl, ok := in.(*ssa.Call)
+				if !ok {
+					return
+				}
+				tup, isTup := cl.Type().(*types.Tuple)
+				if !isTup || tup.Len() < 2 || typeStr(tup.At(tup.Len()-1).Type()) != "error" {
+					return
+				}
+				n++
+				errUsed := false
+				var vals []*ssa.Extract
+				if rs := cl.Referrers(); rs != nil {
+					for _, r := range *rs {
+						ex, isEx := r.(*ssa.Extract)
+						if !isEx {
+							continue
+						}
+						if ex.Index == tup.Len()-1 {
+							if er := ex.Referrers(); er != nil {
+								for _, u := range *er {
+									if _, isDbg := u.(*ssa.DebugRef); !isDbg {
+										errUsed = true
+									}
+								}
+							}
+						} else {
+							vals = append(vals, ex)
+						}
+					}
+				}
+				if errUsed {
+					return
+				}
+				for _, v := range vals {
+					switch v.Type().Underlying().(type) {
+					case *types.Pointer, *types.Interface:
+					default:
+						continue
+					}
+					if vr := v.Referrers(); vr != nil {
+						for _, u := range *vr {
+							deref := false
+							switch x := u.(type) {
+							case *ssa.FieldAddr, *ssa.Field:
+								deref = true
+							case *ssa.UnOp:
+								deref = x.Op == token.MUL
+							case ssa.CallInstruction:
+								// method call on it (invoke or a pointer receiver)
+								cc := x.Common()
+								if cc.IsInvoke() && cc.Value == ssa.Value(v) {
+									deref = true
+								}
+								if !cc.IsInvoke() && len(cc.Args) > 0 && cc.Args[0] == ssa.Value(v) && cc.StaticCallee() != nil && cc.StaticCallee().Signature.Recv() != nil {
+									deref = true
+								}
+							}
+							if deref && bad == "" {
+								name := "a call"
+								if cal := cl.Call.StaticCallee(); cal != nil {
+									name = calleeName(cal)
+								}
+								bad = c.P.Pos(u.Pos()) + ": " + shortFn(fn) + " uses the result of " + name + " although the error returned with it is discarded: once the list is unreadable the call fails, the result is nil and the query crashes instead of degrading"
+							}
+						}
+					}
+				}
+			})
+		}
+		if bad == "" {
+			c.OK("C19.R9", "retrieval path: results of failing calls", rr.Pos(), fmt.Sprintf("%d calls returning (..., error) inspected", n))
+		} else {
+			c.Fail("C19.R9", "retrieval path: results of failing calls", rr.Pos(), bad)
+		}
+	}
 	_ = token.NoPos
 }
 
